@@ -71,10 +71,15 @@ func (w *Worker) genC13(rc *simapi.RunConfig) {
 		ex.Mode = "source"
 		rc.Kind = "source-transform"
 		np := r.Intn(4)
-		pads := []string{"\n", "\n\n\n", "var gcsimPad%d int\n", "func gcsimPad%d() {}\n", "type gcsimPadT%d struct{}\n", "// padding comment %d\n\n", "\n\nconst gcsimPadC%d = %d\n\n"}
+		pads := []string{"\n", "\n\n\n", "var gcsimPad%d int\n", "func gcsimPad%d() {}\n", "type gcsimPadT%d struct{}\n", "// padding comment %d\n\n", "\n\nconst gcsimPadC%d = %d\n\n",
+			"func gcsimPadExtern%d(x int) int\n",                               // a function without a body (implemented elsewhere): legal
+			"func (gcsimPadRecv%d) pad() {}\n\ntype gcsimPadRecv%d struct{}\n", // a method before its receiver type
+			"func init() {}\n"}
 		for i := 0; i < np; i++ {
 			t := pads[r.Intn(len(pads))]
-			if strings.Count(t, "%d") == 2 {
+			if strings.Contains(t, "gcsimPadRecv") {
+				t = fmt.Sprintf(t, i, i)
+			} else if strings.Count(t, "%d") == 2 {
 				t = fmt.Sprintf(t, i, i)
 			} else if strings.Contains(t, "%d") {
 				t = fmt.Sprintf(t, i)
